@@ -325,6 +325,22 @@ func (w *sworld) send(n string, flag int, data []byte) error {
 	return nil
 }
 
+// writeFrame sends one frame through Stream.WriteFrame (the typed layer's way onto the wire): to the
+// stream model a `send` with the end flag WriteFrame chose.
+func (w *sworld) writeFrame(n string, data []byte, eom bool) error {
+	e := w.ep(n)
+	enc, fin := e.crypting(), e.finalized
+	err := e.s.WriteFrame(bg, data, eom)
+	op := fmt.Sprintf("send %s %s %s", n, b01(eom), w.payload(data))
+	if err != nil {
+		e.c.TakeOut()
+		w.log(op, "err "+errClass(err))
+		return err
+	}
+	w.log(op, strings.TrimRight("ok "+w.collect(e, enc, fin), " "))
+	return nil
+}
+
 func (w *sworld) write(n string, data []byte) error {
 	e := w.ep(n)
 	enc, fin := e.crypting(), e.finalized
